@@ -9,6 +9,7 @@ import os, re, shutil, subprocess, sys
 
 OUT = sys.argv[1]
 SUF = sys.argv[2] if len(sys.argv) > 2 else "rn"
+PARAMS = len(sys.argv) > 3 and sys.argv[3] == "params"   # rename function parameters instead of locals
 W = "/tmp/qxrename/w"
 KEY = {"self", "super", "crate", "true", "false", "mut", "ref", "match", "if", "else", "let", "fn", "in", "for", "while", "loop", "return", "Some", "None", "Ok", "Err"}
 
@@ -27,10 +28,62 @@ def non_test_span(src):
     return min(idx) if idx else len(src)
 
 
+def code_segments(text):
+    """split into (is_code, chunk): comments, string and char literals are not code"""
+    out = []
+    i, n = 0, len(text)
+    start = 0
+    def flush(j, code):
+        nonlocal start
+        if j > start:
+            out.append((code, text[start:j]))
+        start = j
+    while i < n:
+        c = text[i]
+        if text.startswith("//", i):
+            flush(i, True)
+            j = text.find("\n", i)
+            j = n if j < 0 else j
+            i = j
+            flush(i, False)
+        elif text.startswith("/*", i):
+            flush(i, True)
+            j = text.find("*/", i + 2)
+            i = n if j < 0 else j + 2
+            flush(i, False)
+        elif c == '"' or (c == "r" and re.match(r'r#*"', text[i:i + 6]) and (i == 0 or not (text[i - 1].isalnum() or text[i - 1] == "_"))):
+            flush(i, True)
+            if c == "r":
+                m = re.match(r'r(#*)"', text[i:])
+                close = '"' + m.group(1)
+                j = text.find(close, i + len(m.group(0)))
+                i = n if j < 0 else j + len(close)
+            else:
+                j = i + 1
+                while j < n and text[j] != '"':
+                    j += 2 if text[j] == "\\" else 1
+                i = min(n, j + 1)
+            flush(i, False)
+        elif c == "'" :
+            m = re.match(r"'(\\.[^']*|[^'\\])'", text[i:i + 12])
+            if m:
+                flush(i, True)
+                i += len(m.group(0))
+                flush(i, False)
+            else:
+                i += 1  # lifetime
+        else:
+            i += 1
+    flush(n, True)
+    return out
+
+
 def rename(src, names, upto):
     head, tail = src[:upto], src[upto:]
-    for a in names:
-        head = re.sub(r"(?<![.\w:$'])%s(?![\w(!:])" % re.escape(a), a + "_" + SUF, head)
+    if not names:
+        return src
+    rx = re.compile(r"(?<![.\w:$'])(%s)(?![\w(!]|::)" % "|".join(re.escape(a) for a in names)) if PARAMS else re.compile(r"(?<![.\w:$'])(%s)(?![\w(!:])" % "|".join(re.escape(a) for a in names))
+    head = "".join(rx.sub(lambda m: m.group(1) + "_" + SUF, chunk) if code else chunk for code, chunk in code_segments(head))
     return head + tail
 
 
@@ -50,6 +103,10 @@ def main():
             cands = set(re.findall(r"\blet\s+(?:mut\s+)?([a-z_][a-z0-9_]{2,})\b", src[:upto]))
             cands |= set(re.findall(r"\|\s*&?(?:mut\s+)?([a-z_][a-z0-9_]{1,})\s*\|", src[:upto]))
             cands |= set(re.findall(r"\bfor\s+([a-z_][a-z0-9_]{1,})\s+in\b", src[:upto]))
+            if PARAMS:
+                cands = set()
+                for sig in re.findall(r"\bfn\s+[a-z_0-9]+\s*(?:<[^>{]*>)?\s*\(([^{;]*?)\)\s*(?:->|\{|where)", src[:upto], re.S):
+                    cands |= set(re.findall(r"(?:^|[(,]\s*)(?:mut\s+)?([a-z_][a-z0-9_]{1,})\s*:", sig))
             cands = sorted(c for c in cands if c not in KEY and not c.startswith("_"))
             if not cands:
                 continue
